@@ -902,9 +902,17 @@ func Merge[T any](in ...Stream[T]) Stream[T] {
 	nDone := uint32(0)
 	closeOnce := uint32(0)
 	ctx, cancel := context.WithCancel(context.Background())
+	var wg sync.WaitGroup
+	wg.Add(len(in))
+	if len(in) == 0 {
+		// Nobody else is going to.
+		sender.Close(nil)
+	}
 	for i := 0; i < len(in); i++ {
 		i := i
 		go func() {
+			defer wg.Done()
+			defer in[i].Close()
 			defer func() {
 				if int(atomic.AddUint32(&nDone, 1)) == len(in) &&
 					atomic.LoadUint32(&closeOnce) == 0 {
@@ -930,7 +938,14 @@ func Merge[T any](in ...Stream[T]) Stream[T] {
 			}
 		}()
 	}
-	return receiver
+	return &mergeStream[T]{
+		inner: receiver,
+		cancel: func() {
+			cancel()
+			// Wait for every input to be closed.
+			wg.Wait()
+		},
+	}
 }
 
 type mergeStream[T any] struct {
